@@ -871,6 +871,7 @@ package rosmar
 //@   ensures [C19:prepareQuery.live-docs-of-this-collection] forall o: DocId :: cteWhere(result0, o) <==> (docAt(o).present && o.coll == c.id && !isnull(docAt(o).value))
 //@   ensures [C19:prepareQuery.columns] cteCols(result0) == 3 && (forall o: DocId :: cteCol(result0, "id", o) == o.key && cteCol(result0, "body", o) == docAt(o).value && cteCol(result0, "xattrs", o) == docAt(o).xattrs)
 //@   ensures [C19:prepareQuery.no-sql] count("sql") == 0
+//@   ensures [C19:prepareQuery.json-columns-are-text] cteColIsText(result0, "body") && cteColIsText(result0, "xattrs")
 
 // Bounded stand-in (not a proof): result sets of at most 2 rows; the loop is unrolled.
 //@ fn (*queryIterator).Close
@@ -904,6 +905,7 @@ package rosmar
 //@   ensures [C19:Query.keyspace-shape] count("sql") == 1 ==> cteOK(stmtText(0))
 //@   ensures [C19:Query.live-docs-of-this-collection] count("sql") == 1 ==> forall o: DocId :: cteWhere(stmtText(0), o) <==> (docAt(o).present && o.coll == c.id && !isnull(docAt(o).value))
 //@   ensures [C19:Query.columns]       count("sql") == 1 ==> cteCols(stmtText(0)) == 3 && (forall o: DocId :: cteCol(stmtText(0), "id", o) == o.key && cteCol(stmtText(0), "body", o) == docAt(o).value && cteCol(stmtText(0), "xattrs", o) == docAt(o).xattrs)
+//@   ensures [C19:Query.json-columns-are-text] count("sql") == 1 ==> cteColIsText(stmtText(0), "body") && cteColIsText(stmtText(0), "xattrs")
 //@   ensures [C19:Query.reads-only]    db == old(db)
 //@   ensures [C19:Query.in-memory-prerecorded] err == nil && c.bucket.inMemory ==> count("call:preRecord") == 1 && iter == callret("preRecord", 0)
 //@   ensures [C19:Query.on-disk-streams]       err == nil && !c.bucket.inMemory ==> count("call:preRecord") == 0
